@@ -125,8 +125,11 @@ func init() {
 	for _, m := range []string{"Symlink", "Mkdir", "Stat", "Open", "RemoveAll", "Remove", "Create", "WriteFile", "Rename", "ReadFile", "OpenFile"} {
 		c07 = append(c07, Item{Plugin: "sites", Func: "hotline.(*OSFileStore)." + m, Kinds: []string{"site"}})
 	}
+	c07 = append(c07, Item{Func: "hotline.(*ClientConn).FileRoot"})
 	plans["C07"] = &Plan{Items: c07,
 		Decided: []string{
+			"ClientConn.FileRoot: the account's own root whenever one is configured, the shared root only otherwise -- a function of the configuration alone",
+
 			"every OSFileStore method hands the operating system exactly the paths, flags and data it was given (Symlink: an alias stores the in-root absolute path the handler proved, never a rewritten one)",
 			"ReadPath returns a path inside the file root for every path / name byte string (loop invariant: the accumulated sub-path is empty or a cleaned absolute path)",
 			"every path a file handler hands to the file store, to os.* or to NewFileWrapper is inside the requester's file root; the root registered with a file transfer is the requester's root; fileWrapper.Move / Delete / the fork writers touch only paths inside the root given their invariant; folder-upload item paths are cleaned before use; upload / download handlers on the transfer connection stay inside the root they are given",
@@ -146,6 +149,8 @@ func init() {
 			{Plugin: "handler-contract", Func: "mobius.HandleDeleteUser", Kinds: []string{"site"}},
 			{Plugin: "handler-contract", Func: "mobius.HandleListUsers", Kinds: []string{"site", "inv-step", "inv-init"}},
 			{Plugin: "sites", Func: "mobius.writeFileAtomic", Kinds: []string{"site", "post"}},
+			// the record shown to administrators is served whole whatever the reader's buffer size
+			{Func: "hotline.(*Account).Read"}, {Func: "hotline.EncodeString"}, {Func: "hotline.NewField"},
 			// the login that is checked is the login that was sent (no normalisation the account table does not share)
 			{Plugin: "sites", Func: "hotline.(*Server).handleNewConnection", Kinds: []string{"site"}},
 			{Plugin: "handler-contract", Func: "mobius.HandleUpdateUser", Kinds: []string{"site"}},
@@ -196,9 +201,10 @@ func init() {
 	plans["C12"] = &Plan{
 		Items: append([]Item{
 			{Plugin: "handler-contract", Func: "mobius.HandleChatSend", Kinds: []string{"site"}},
-			{Plugin: "handler-contract", Func: "mobius.HandleJoinChat", Kinds: []string{"site"}},
-			{Plugin: "handler-contract", Func: "mobius.HandleLeaveChat", Kinds: []string{"site"}},
-			{Plugin: "handler-contract", Func: "mobius.HandleSetChatSubject", Kinds: []string{"site"}},
+			{Plugin: "handler-contract", Func: "mobius.HandleJoinChat", Kinds: []string{"site", "inv-step", "inv-init"}},
+			{Plugin: "handler-contract", Func: "mobius.HandleLeaveChat", Kinds: []string{"site", "inv-step", "inv-init"}},
+			{Plugin: "handler-contract", Func: "mobius.HandleSetChatSubject", Kinds: []string{"site", "inv-step", "inv-init"}},
+			{Plugin: "handler-contract", Func: "mobius.HandleRejectChatInvite", Kinds: []string{"site", "inv-step", "inv-init"}},
 			// who a chat line reaches is decided by client IDs: they must be unique among the connected
 			{Func: "hotline.(*MemClientMgr).Add"}, {Func: "hotline.(*MemClientMgr).Get"}, {Func: "hotline.(*MemClientMgr).Delete"}, {Func: "hotline.(*MemClientMgr).List"},
 		}, fnItems([]string{"post", "guarded"}, "hotline.(*MemChatManager).Join", "hotline.(*MemChatManager).Leave", "hotline.(*MemChatManager).New")...),
@@ -258,6 +264,7 @@ func init() {
 			{Plugin: "sites", Func: "hotline.(*Server).handleNewConnection", Kinds: siteKinds},
 			{Plugin: "handler-contract", Func: "mobius.HandleDisconnectUser", Kinds: []string{"site"}},
 			{Plugin: "sites", Func: "hotline.(*ClientConn).Disconnect", Kinds: []string{"site", "post", "inv-step", "inv-init"}},
+			{Plugin: "sites", Func: "hotline.(*ClientConn).NotifyOthers", Kinds: []string{"site", "inv-step", "inv-init"}},
 			{Plugin: "sites", Func: "mobius.(*BanFile).Add", Kinds: []string{"site", "post", "guarded"}},
 			{Func: "mobius.(*BanFile).IsBanned"},
 		},
@@ -418,6 +425,7 @@ func init() {
 			Item{Plugin: "handler-contract", Func: "mobius.HandleSetClientUserInfo", Kinds: []string{"site"}},
 			Item{Plugin: "handler-contract", Func: "mobius.HandleTranAgreed", Kinds: []string{"site"}},
 			Item{Plugin: "handler-contract", Func: "mobius.HandleSendInstantMsg", Kinds: []string{"site"}},
+			Item{Plugin: "handler-contract", Func: "mobius.HandleSetUser", Kinds: []string{"site", "inv-step", "inv-init"}},
 			Item{Plugin: "sites", Func: "hotline.(*ClientConn).NotifyOthers", Kinds: []string{"site", "inv-step", "inv-init"}},
 			Item{Plugin: "sites", Func: "hotline.(*ClientConn).Disconnect", Kinds: []string{"site", "post", "inv-step", "inv-init"}},
 			Item{Plugin: "sites", Func: "hotline.(*ClientConn).SendAll", Kinds: []string{"site", "inv-step", "inv-init"}},
